@@ -708,6 +708,10 @@ impl<'tcx> Cx<'tcx> {
                             if ok {
                                 o.push(("strs", J::Arr(strs.into_iter().map(J::s).collect())));
                             }
+                            // a constant of a (private) struct type: its pretty-printed value, e.g. `Entry { name: "None", index: 0_u8 }`
+                            if cty.is_adt() {
+                                o.push(("pretty", J::s(format!("{}", mir::Const::Val(val, cty)))));
+                            }
                         }
                     }
                 }
